@@ -153,7 +153,7 @@ def reference(data, la):
     except Exception as e:
         ref["pages"] = "raise:%s@%s" % (type(e).__name__, where(e))
         pages = []
-    for name, fn in (("text", lambda: call_text(data, la, True)), ("fp-text", lambda: call_fp(data, la, True, "text")), ("fp-xml", lambda: call_fp(data, la, True, "xml"))):
+    for name, fn in (("text", lambda: call_text(data, la, True)), ("fp-text", lambda: call_fp(data, la, True, "text")), ("fp-xml", lambda: call_fp(data, la, True, "xml")), ("fp-html", lambda: call_fp(data, la, True, "html"))):
         try:
             ref[name] = fn()
         except Exception as e:
@@ -255,6 +255,23 @@ def handle(msg):
     raise ValueError(kind)
 
 
+def html_with_options(data, la, caching):
+    """An HTML conversion with the converter's non-default options (debug boxes, other colours, another scale):
+    its own output is not judged - it must leave nothing behind for the conversions that follow."""
+    from pdfminer.converter import HTMLConverter
+    from pdfminer.pdfinterp import PDFPageInterpreter, PDFResourceManager
+    from pdfminer.pdfpage import PDFPage
+
+    rm = PDFResourceManager(caching=caching)
+    out = io.BytesIO()
+    dev = HTMLConverter(rm, out, codec="utf-8", laparams=laparams_of(la), debug=1, scale=2, fontscale=0.5, layoutmode="exact", showpageno=False, pagemargin=10)
+    interp = PDFPageInterpreter(rm, dev)
+    for page in PDFPage.get_pages(io.BytesIO(data), caching=caching):
+        interp.process_page(page)
+    dev.close()
+    return "done"
+
+
 def walk_twice(data, la, caching):
     """The low-level API with one document, one resource manager, one device and one interpreter: the pages walked
     twice, and every page interpreted twice in the second walk.  Answers the pages of the last pass if all passes
@@ -291,6 +308,8 @@ def observe_call(data, la, caching, what, arg):
             return [page_canon(p) for p in call_pages(data, la, caching, page_numbers={arg})]
         if what == "doc-twice":
             return walk_twice(data, la, caching)
+        if what == "html-options":
+            return html_with_options(data, la, caching)
         if what == "text":
             return call_text(data, la, caching)
         if what == "text-single":
@@ -389,6 +408,8 @@ def run(tape, ctx, item=None):
             want = r["text-single"][arg] if arg < len(r["text-single"]) else ""
         elif what == "doc-twice":
             want = r["pages"]
+        elif what == "html-options":
+            want = "done" if not (isinstance(r.get("fp-html"), str) and r["fp-html"].startswith("raise:")) else got
         else:
             want = r[what]
         if got == want:
@@ -426,7 +447,7 @@ def run(tape, ctx, item=None):
             if addr[0] != "mono":
                 ctx.probe("address policy " + addr[0])
             ev = seams.draw_evict(t)
-            what = t.pick(["pages", "pages", "single", "text", "text-single", "fp-text", "fp-xml", "doc-twice"], "task.what")
+            what = t.pick(["pages", "pages", "single", "text", "text-single", "fp-text", "fp-xml", "fp-html", "fp-html", "html-options", "doc-twice"], "task.what")
             if what == "doc-twice":
                 ctx.probe("one document walked twice with the same objects")
             r = ref_for(di, la)
